@@ -189,7 +189,7 @@ def run(ctx):
                 "outside the standard grammar that the reader accepted" % (len(coq_cases), time.time() - t0,
                                                                            len(disagree), len(nonstd)))
         ctx.cov["disagreements_checked"] = len(disagree)
-        if report_nonstandard(ctx, uniq, results, nonstd):
+        if report_nonstandard(ctx, uniq, results, nonstd, rules3):
             concrete = True
         if report_unexplained(ctx, env, uniq, results, disagree):
             concrete = True
@@ -302,14 +302,30 @@ def report_unexplained(ctx, env, uniq, results, disagree):
     return reported > 0
 
 
-def report_nonstandard(ctx, uniq, results, nonstd):
+_SHAPE_KEY = {"binop/pow-left-nested": T.K_POW, "binop/relational-chained": T.K_REL,
+              "unop/not-left-of-tighter-binop": T.K_NOT, "unop/sign-left-of-tighter-binop": T.K_SIGN}
+
+
+def live_reasons(t, rules3):
+    """Keys of the known shapes present in t that the writer under test still leaves unbracketed
+    (bracket rules recognised by translate.py), plus the literal / range shapes.  A shape whose
+    bracket rule is implemented is written with brackets and cannot be what makes the text
+    non-standard, so it is not blamed (it was: seed 3 attributed a .NOT.-left-of-'-' text inside a
+    bracketed relational chain to the repaired relational-chained key)."""
+    shape = set(_SHAPE_KEY.values())
+    out = {_SHAPE_KEY[r] for r in T.shape_reasons(t, rules3)}
+    out |= {r for r in T.reasons(t) if r not in shape}
+    return sorted(out)
+
+
+def report_nonstandard(ctx, uniq, results, nonstd, rules3=(False, False, False)):
     """trees whose written text is not in the Fortran grammar although fparser2 read it back:
     the property asks for standard-conforming text.  By the partial theorem such a tree contains
     one of the known shapes; each shape present is reported under its key."""
     reported = False
     for i in nonstd[:6]:
         t = uniq[i][1]
-        rs = sorted(set(T.reasons(t))) or ["unclassified/non-standard-text"]
+        rs = live_reasons(t, rules3) or ["unclassified/non-standard-text"]
         ctx.hist("failure_class", "non-standard-text:" + "+".join(rs))
         for key in rs:
             if ctx.finding(key, "tree %s is written '%s', which is not in the Fortran 2008 expression grammar"
